@@ -41,7 +41,7 @@ ASSUMPTIONS = ['group-by columns have a concrete type (Any-typed group-by column
                'documents contain no user formulas except formula columns added to summary tables',
                'a summary table whose source no longer has the group-by column (column removed) is judged on its '
                'remaining group-by columns as recorded in the metadata']
-BUDGET = {'quick': dict(examples=1100, shards=16, max_seconds=55),
+BUDGET = {'quick': dict(examples=1600, shards=16, max_seconds=55),
           'thorough': dict(examples=16000, shards=16, max_seconds=560)}
 SHRINK_BUDGET = {'quick': 100, 'thorough': 400}
 
@@ -232,6 +232,8 @@ def resolve(d, op, st_):
   src = src_table(d)
   if k == 'undo':
     return ['ApplyUndoActions', st_['undo'][-1]] if st_['undo'] else None
+  if k == 'rmpeopletable':
+    return ['RemoveTable', PEOPLE] if PEOPLE in d.engine.tables else None
   if k == 'rmpeople':
     rows = d.row_ids(PEOPLE) if PEOPLE in d.engine.tables else []
     return ['RemoveRecord', PEOPLE, _pick(rows, op.get('a', 0))] if rows else None
@@ -522,7 +524,7 @@ _sel = st.integers(0, 7)
 _mask6 = st.integers(0, 63)
 
 WEIGHTS = {'add': 10, 'upd': 22, 'rm': 8, 'rmpeople': 2, 'summary': 4, 'regroup': 8, 'rmsection': 1, 'rencol': 2,
-           'rentable': 1, 'modtype': 8, 'rmcol': 3, 'addcol': 2, 'addf': 3, 'undo': 8, 'move': 3}
+           'rentable': 1, 'modtype': 8, 'rmcol': 3, 'addcol': 2, 'addf': 3, 'undo': 8, 'move': 3, 'rmpeopletable': 1}
 
 
 def _op():
@@ -543,6 +545,7 @@ def _op():
     'addf': st.fixed_dictionaries({'k': st.just('addf'), 'a': _sel, 'b': _sel, 'f': st.integers(0, 4), 'name': st.integers(0, 2)}),
     'undo': st.fixed_dictionaries({'k': st.just('undo')}),
     'move': st.fixed_dictionaries({'k': st.just('move'), 'a': _sel}),
+    'rmpeopletable': st.fixed_dictionaries({'k': st.just('rmpeopletable')}),
   }
   kinds = []
   for k in sorted(WEIGHTS):
